@@ -335,6 +335,7 @@ def main():
         'obligation_list': [{'name': k, 'ok': ok, 'detail': (d if not ok else d[:120])} for k, (ok, d) in sorted(obl.items())],
         'theorems': audit['theorems'],
         'traces_validated_against_impl': results.get('n_corr', 0),
+        'model_runs_stopped_by_time_limit_prefix_agreed': results.get('n_model_timeout', 0),
         'evaluations': results.get('n_eval', 0),
         'distinct_nontrivial': results.get('n_distinct', 0),
         'rule': results.get('rule', ''),
